@@ -47,9 +47,19 @@ CHECKS = {
         note='Trusted: Lean kernel; standard axioms; hand model tied by correspondence; texts ASCII only (str.lower); keys of the lookup value kind '
              '(numbers or texts, no blanks) is the domain of the spec; COLUMN is checked end-to-end only (translation-time constant).',
         technique='Lean 4 proof over hand model + differential correspondence', design='5/C14'),
+    'C17': dict(
+        text='Lean 4 theorems over the model of _left/_right/_mid/_search/_value and & / CONCATENATE: LEFT = take, RIGHT = last n, MID = drop/take '
+             'with the error values for negative counts / k<1, agreement with the declarative spec for every argument, the rebuild law '
+             'LEFT(t,n)&MID(t,n+1,len)=t, concatenation in operand order, the executable wildcard matcher decides the inductive match relation '
+             '(matchPre_iff), SEARCH returns the least position >= start with an occurrence (both directions) else #VALUE!, plain patterns are '
+             'case-insensitive substring search, VALUE of a decimal text is the nearest double. Tie B: all strings to length 3/4 over a '
+             'wildcard/regex-special alphabet x positions in a box, SEARCH against the model and an independent reference matcher, end-to-end formulas.',
+        note='Trusted: Lean kernel; standard axioms; re.search leftmost-match semantics and str slicing are externals (modelled, validated by correspondence); '
+             'texts ASCII only (re.I / lower); the text form of floats under & (Python repr) is not modelled - the statement fixes no text form.',
+        technique='Lean 4 proof over hand model + differential correspondence + independent reference matcher', design='5/C17'),
 }
 
-WIP = {'C14'}   # built, proofs in progress: not claimed until green
+WIP = set()   # built, proofs in progress: not claimed until green
 NOT_YET = 'check not built yet (work in progress; will be claimed when its Lean model, theorems and correspondence are green)'
 
 
